@@ -20,6 +20,24 @@ class DegreeOverflow(Exception):
   pass
 
 
+class BlowUp(Exception):
+  """The normal form exceeds the monomial budget (reported as a harness error, never as success)."""
+
+
+class DefinednessHazard(Exception):
+  """Raised eagerly (Space.eager_obligations) when an operation that is undefined / non-differentiable on part of the
+  box is met: carries the obligation and the atom so that the caller can look for a witness and replay it."""
+
+  def __init__(self, obligation, atom):
+    super().__init__(f"{obligation['kind']} obligation on {obligation['atom']} (argument range [{obligation['lo']:.3g}, {obligation['hi']:.3g}])")
+    self.obligation = obligation
+    self.atom = atom
+
+
+import os as _os
+MAX_MONOMIALS = int(float(_os.environ.get('DVERIF_MAX_MONOMIALS', '12e6')))
+
+
 class Space:
   """Variables, monomial table, atoms (non-polynomial definitions)."""
 
@@ -44,6 +62,8 @@ class Space:
     self.series_order = series_order
     self._series_name = series_var
     self.obligations: list[dict] = []   # definedness obligations
+    self.eager_obligations = False      # raise DefinednessHazard as soon as an obligation is recorded
+    self.cleared_obligations: set = set()   # (kind, atom-argument key) of hazards that were examined and found harmless
 
   # -- variables -----------------------------------------------------------
   @property
@@ -88,6 +108,8 @@ class Space:
       newcodes = u[~found]
       newcols = np.arange(len(self.codes), len(self.codes) + nnew, dtype=np.int64)
       ucols[~found] = newcols
+      if len(self.codes) + nnew > MAX_MONOMIALS:
+        raise BlowUp(f'monomial table would exceed {MAX_MONOMIALS} entries')
       self.codes = np.concatenate([self.codes, newcodes])
       allc = np.concatenate([self._sorted_codes, newcodes])
       allcols = np.concatenate([self._sorted_cols, newcols])
@@ -795,12 +817,19 @@ def atom_apply(kind: str, arg: PolyArr, extra=None) -> PolyArr:
                    var=var_index, col=col, fn=fn, arg_lo=lo, arg_hi=hi)
       sp.atoms.append(found)
       sp.atom_index.setdefault(key, []).append(found)
+      ob = None
       if kind in ('recip',) and lo <= 0 <= hi:
-        sp.obligations.append(dict(kind='nonzero', atom=name, lo=lo, hi=hi))
+        ob = dict(kind='nonzero', atom=name, lo=lo, hi=hi)
       if kind in ('log', 'rsqrt', 'pow') and lo <= 0:
-        sp.obligations.append(dict(kind='positive', atom=name, lo=lo, hi=hi))
+        ob = dict(kind='positive', atom=name, lo=lo, hi=hi)
       if kind == 'sqrt' and lo < 0:
-        sp.obligations.append(dict(kind='nonneg', atom=name, lo=lo, hi=hi))
+        ob = dict(kind='nonneg', atom=name, lo=lo, hi=hi)
+      if ob is not None:
+        sp.obligations.append(ob)
+        hkey = (ob['kind'], kind, key[2], tuple(np.round(vals[big] / np.abs(vals).max(), 9).tolist()))
+        ob['hkey'] = hkey
+        if sp.eager_obligations and hkey not in sp.cleared_obligations:
+          raise DefinednessHazard(ob, found)
     out_cols[i] = found['col']
   rows = np.arange(n)
   cols_all = np.where(is_const_row, 0, out_cols)
